@@ -209,7 +209,8 @@ Qed.
 
 Lemma frame_on_ku me s e q m req : Frame me s (fst (on_ku me s e q m req)) (snd (on_ku me s e q m req)).
 Proof.
-  unfold on_ku. destruct (m <? hs_recv s); [apply frame_send_ack|].
+  unfold on_ku. destruct (shadowed s m); [apply frame_send_ack|]. unfold on_ku0.
+  destruct (m <? hs_recv s); [apply frame_send_ack|].
   destruct (m =? hs_recv s); [|apply frame_send_ack].
   destruct (negb _).
   { cbn. apply frame_same; [reflexivity | reflexivity | repeat constructor]. }
@@ -369,7 +370,8 @@ Qed.
 
 Lemma nc_on_ku me s e q m req : commits me (snd (on_ku me s e q m req)) = 0.
 Proof.
-  unfold on_ku. destruct (m <? hs_recv s); [apply nc_send_ack|].
+  unfold on_ku. destruct (shadowed s m); [apply nc_send_ack|]. unfold on_ku0.
+  destruct (m <? hs_recv s); [apply nc_send_ack|].
   destruct (m =? hs_recv s); [|apply nc_send_ack].
   destruct (negb _); [reflexivity|]. destruct (r_epoch s =? max_epoch); [reflexivity|].
   pose proof (nc_advance_read me s m req) as Hadv.
@@ -539,7 +541,8 @@ Record DInv (X : side) (sx : sidest) (nt : list (N * rec)) (sy : sidest) (ny : l
   d_got : forall e q p, In (e, q, p) (got sy) ->
             In (e, q) (seen sy) /\ exists r, In (e, r) nt /\ r_seq r = q /\ r_kind r = App p;
   d_gotuniq : NoDup (map gkey (got sy));
-  d_futq : futq sy = []
+  d_futq : futq sy = [];
+  d_shadow : shadow sy = []
 }.
 
 (* both directions, seen from the acting side *)
@@ -552,7 +555,7 @@ Lemma GInv_side st me : GInv st -> PInv me (sd st me) (net st me) (sd st (other 
 Proof. intros [H1 H2]. destruct me; cbn [other]; split; assumption. Qed.
 
 Definition sview (s : sidest) := (w_epoch s, w_sec s, w_seq s, hs_send s, pending s).
-Definition rview (s : sidest) := (r_epoch s, r_gens s, hs_recv s, wins s, seen s, got s, futq s).
+Definition rview (s : sidest) := (r_epoch s, r_gens s, hs_recv s, wins s, seen s, got s, futq s, shadow s).
 
 Lemma DInv_sview X sx sx' nt sy ny : sview sx = sview sx' -> DInv X sx nt sy ny -> DInv X sx' nt sy ny.
 Proof.
@@ -562,8 +565,8 @@ Qed.
 
 Lemma DInv_rview X sx nt sy sy' ny : rview sy = rview sy' -> DInv X sx nt sy ny -> DInv X sx nt sy' ny.
 Proof.
-  unfold rview. intros E H. inversion E as [[E1 E2 E3 E4 E5 E6 E7]]. destruct H.
-  constructor; rewrite <- ?E1, <- ?E2, <- ?E3, <- ?E4, <- ?E5, <- ?E6, <- ?E7; assumption.
+  unfold rview. intros E H. inversion E as [[E1 E2 E3 E4 E5 E6 E7 E8]]. destruct H.
+  constructor; rewrite <- ?E1, <- ?E2, <- ?E3, <- ?E4, <- ?E5, <- ?E6, <- ?E7, <- ?E8; assumption.
 Qed.
 
 (* an update of the acting side that touches neither view *)
@@ -741,7 +744,7 @@ Proof.
   - pose proof (dinv_ku_S me sm
       (mkside (failed sm) (w_epoch sm) (w_sec sm) (w_seq sm + 1) (hs_send sm + 1)
               (Some (mkflight (hs_send sm) req id [w_seq sm])) (queue sm) (r_epoch sm) (r_gens sm)
-              (hs_recv sm) (wins sm) (futq sm) (seen sm) (got sm))
+              (hs_recv sm) (wins sm) (futq sm) (seen sm) (got sm) (shadow sm))
       nm sp np (mkflight (hs_send sm) req id [w_seq sm]) req H1 Hq) as HS.
     cbn [w_epoch w_sec w_seq hs_send pending f_msg f_seqs] in HS. apply HS; try reflexivity; try lia.
     intros q [<- | []]. now left.
@@ -886,7 +889,7 @@ Qed.
 Lemma dinv_commit_S X sx nt sy ny :
   DInv X sx nt sy ny -> pending sx <> None -> r_epoch sy = w_epoch sx + 1 ->
   DInv X (mkside (failed sx) (w_epoch sx + 1) (Next (w_sec sx)) 0 (hs_send sx) None (queue sx) (r_epoch sx)
-                 (r_gens sx) (hs_recv sx) (wins sx) (futq sx) (seen sx) (got sx)) nt sy ny.
+                 (r_gens sx) (hs_recv sx) (wins sx) (futq sx) (seen sx) (got sx) (shadow sx)) nt sy ny.
 Proof.
   intros H Hp Hr. destruct H.
   constructor; cbn [w_epoch w_sec w_seq hs_send pending]; try assumption.
@@ -936,10 +939,10 @@ Lemma dinv_advance_R P sp np sm nm cur tl (req : bool) :
     (mkside (failed sm) (w_epoch sm) (w_sec sm) (w_seq sm) (hs_send sm) (pending sm)
             (if req then insert_response (queue sm) else queue sm)
             (r_epoch sm + 1) (mkgen (r_epoch sm + 1) (Next (g_sec cur)) :: r_gens sm)
-            (hs_recv sm + 1) (wins sm) [] (seen sm) (got sm)) nm.
+            (hs_recv sm + 1) (wins sm) [] (seen sm) (got sm) (shadow sm)) nm.
 Proof.
   intros H Hg Hr Hp Hmax. destruct H.
-  constructor; cbn [r_epoch r_gens hs_recv wins seen got futq]; try assumption.
+  constructor; cbn [r_epoch r_gens hs_recv wins seen got futq shadow]; try assumption.
   - unfold max_epoch in *. lia.
   - rewrite gens_down_succ by lia. rewrite <- d_rgens0. f_equal. f_equal.
     destruct (gens_down_head P (r_epoch sm)) as [tl' Htl]; [lia|].
@@ -969,7 +972,8 @@ Proof.
     - intros m' rq' E; discriminate.
     - intros l E e' q Hq. inversion E; subst l. destruct Hq as [Heq | []]. inversion Heq; subst e' q.
       exists r, m, req. auto. }
-  unfold on_ku. destruct (m <? hs_recv sm) eqn:E1.
+  unfold on_ku, shadowed. rewrite (d_shadow _ _ _ _ _ H2). cbn [existsb]. unfold on_ku0.
+  destruct (m <? hs_recv sm) eqn:E1.
   { apply Hack; [now split | lia]. }
   destruct (m =? hs_recv sm) eqn:E2.
   2:{ exfalso. lia. }
@@ -983,7 +987,7 @@ Proof.
   assert (Hpp : pending sp <> None).
   { intro Hn. rewrite Hn in Hhs. lia. }
   unfold advance_read. rewrite Hrg. rewrite (d_futq _ _ _ _ _ H2). cbn [recv_parked_all fst snd].
-  set (s1 := mkside _ _ _ _ _ _ _ _ _ _ _ _ _ _).
+  set (s1 := mkside _ _ _ _ _ _ _ _ _ _ _ _ _ _ _).
   assert (HP1 : PInv me s1 nm sp np).
   { split.
     - eapply DInv_sview; [|exact H1]. reflexivity.
@@ -1461,7 +1465,8 @@ Qed.
 
 Lemma tr_on_ku me s e q m req : Tr me s (fst (on_ku me s e q m req)) (snd (on_ku me s e q m req)).
 Proof.
-  unfold on_ku. destruct (m <? hs_recv s); [apply tr_send_ack|].
+  unfold on_ku. destruct (shadowed s m); [apply tr_send_ack|]. unfold on_ku0.
+  destruct (m <? hs_recv s); [apply tr_send_ack|].
   destruct (m =? hs_recv s) eqn:E; [|apply tr_send_ack]. apply N.eqb_eq in E.
   destruct (negb _); [cbn; apply tr_same; reflexivity|].
   destruct (r_epoch s =? max_epoch); [cbn; apply tr_same; reflexivity|].
@@ -1565,7 +1570,8 @@ Proof. unfold send_ack, emit_ctl, seal. destruct (max_seq48 <? w_seq s); reflexi
 
 Lemma nd_on_ku me s e q m req : ev_dones (snd (on_ku me s e q m req)) = [].
 Proof.
-  unfold on_ku. destruct (m <? hs_recv s); [apply nd_send_ack|].
+  unfold on_ku. destruct (shadowed s m); [apply nd_send_ack|]. unfold on_ku0.
+  destruct (m <? hs_recv s); [apply nd_send_ack|].
   destruct (m =? hs_recv s); [|apply nd_send_ack].
   destruct (negb _); [reflexivity|]. destruct (r_epoch s =? max_epoch); [reflexivity|].
   assert (Hadv : ev_dones (snd (advance_read me s m req)) = []).
@@ -1725,16 +1731,16 @@ Proof.
   cbn [map filter fst]. rewrite (N.eqb_sym 3 e). destruct (e =? 3); cbn [map snd]; [now rewrite IH | exact IH].
 Qed.
 
-Lemma init_DInv c X : N.of_nat (c_window c) <= 32767 ->
+Lemma init_DInv c X : N.of_nat (c_window c) <= 32767 -> no_shadow c ->
   DInv (c_window c) (c_base c) X (init_side c X) [] (init_side c (other X)) [].
 Proof.
-  intro HW.
+  intros HW Hns.
   assert (M1 : 0 < max_seq64) by (unfold max_seq64; lia).
   assert (M2 : N.of_nat (c_window c) <= max_seq64) by (unfold max_seq64; lia).
   pose proof (run_inv (c_window c) max_seq64 M1 M2 (c_pre c (other X)) (win_init (c_window c)) []
                       (inv_init (c_window c)) (NoDup_nil N)) as HR.
   cbn [win_init latest] in HR. specialize (HR ltac:(lia)).
-  constructor; cbn [init_side w_epoch w_sec w_seq hs_send pending r_epoch r_gens hs_recv wins seen got futq].
+  constructor; cbn [init_side w_epoch w_sec w_seq hs_send pending r_epoch r_gens hs_recv wins seen got futq shadow].
   - unfold max_epoch. lia.
   - reflexivity.
   - lia.
@@ -1759,13 +1765,14 @@ Proof.
   - intros e q p [].
   - constructor.
   - reflexivity.
+  - apply Hns.
 Qed.
 
-Theorem init_GInv c : N.of_nat (c_window c) <= 32767 -> GInv (c_window c) (c_base c) (init c).
+Theorem init_GInv c : N.of_nat (c_window c) <= 32767 -> no_shadow c -> GInv (c_window c) (c_base c) (init c).
 Proof.
-  intro HW. unfold GInv, PInv. cbn [init sd net other]. split.
-  - exact (init_DInv c A HW).
-  - exact (init_DInv c B HW).
+  intros HW Hns. unfold GInv, PInv. cbn [init sd net other]. split.
+  - exact (init_DInv c A HW Hns).
+  - exact (init_DInv c B HW Hns).
 Qed.
 
 Lemma init_TCoh c : TCoh (c_base c) (init c) [].
@@ -1895,7 +1902,8 @@ Proof.
   assert (Hack : forall s' l, Qm me (queue s') (fst (send_ack me s' l)) (snd (send_ack me s' l))).
   { intros s' l. unfold send_ack. destruct (qm_ctl me s' (Ack l)) as [H1 H2]; [intros p; discriminate|].
     destruct (emit_ctl me s' (Ack l)) as [[s1 evs] o]. cbn [fst snd] in *. now apply qm_same. }
-  unfold on_ku. destruct (m <? hs_recv s); [apply Hack|].
+  unfold on_ku. destruct (shadowed s m); [apply Hack|]. unfold on_ku0.
+  destruct (m <? hs_recv s); [apply Hack|].
   destruct (m =? hs_recv s); [|apply Hack].
   destruct (negb _); [cbn [fst snd]; apply qm_same; reflexivity|].
   destruct (r_epoch s =? max_epoch); [cbn [fst snd]; apply qm_same; reflexivity|].
@@ -2003,6 +2011,7 @@ Qed.
 Section FromInit.
 Variable c : config.
 Hypothesis HW : N.of_nat (c_window c) <= 32767.
+Hypothesis Hns : no_shadow c.
 
 Lemma run_GInv ops : authentic (init c) ops -> GInv (c_window c) (c_base c) (fst (exec (init c) ops)).
 Proof. intro Ha. apply exec_GInv; [exact HW | now apply init_GInv | exact Ha]. Qed.
@@ -2043,4 +2052,45 @@ Theorem epochs_in_step W b st X : GInv W b st ->
 Proof.
   intro HG. destruct (GInv_side W b st X HG) as [H1 _].
   split; [exact (d_epochs _ _ _ _ _ _ _ H1)|]. split; [exact (d_ahead _ _ _ _ _ _ _ H1) | exact (d_futq _ _ _ _ _ _ _ H1)].
+Qed.
+
+(* ====================================================================== *)
+(* 10. known finding K-C20-1: the premise [no_shadow] is necessary          *)
+(* ====================================================================== *)
+
+(* One unauthenticated fragment numbered like A's SECOND post-handshake message (3 + 1) was left in B's
+   reassembly buffer during the handshake.  Every record below is authentic and the network loses
+   nothing, yet A's second UpdateKeys returns nil although B never processed that KeyUpdate, A then
+   writes under epoch 5 while B's receive epoch stays 4, and the payload A writes afterwards reaches B
+   and is never read.  (Contrast: run_update_returns_after_ack, epochs_in_step,
+   delivered_if_arrives_while_retained, all of which need [no_shadow] through [GInv].) *)
+Definition shadow_cfg : config :=
+  mkcfg 64 (fun s => match s with A => 3 | B => 7 end) (fun s => match s with A => 1 | B => 2 end)
+        (fun s => match s with A => [0; 1] | B => [0] end) (fun s => match s with A => [] | B => [4] end).
+
+Definition shadow_ops : list op :=
+  [ OpUpdate A false 0;                                          (* KeyUpdate 3 in (3,1) *)
+    OpDeliver B (mkrec (secret_of A 3) 3 1 (KU 3 false));        (* B: receive epoch 4, ACK [(3,1)] in (3,2) *)
+    OpDeliver A (mkrec (secret_of B 3) 3 2 (Ack [(3, 1)]));      (* A: send epoch 4, call 0 returns *)
+    OpUpdate A false 1;                                          (* KeyUpdate 4 in (4,0) *)
+    OpDeliver B (mkrec (secret_of A 4) 0 0 (KU 4 false));        (* B: "already assembled": ACK [(4,0)] only *)
+    OpDeliver A (mkrec (secret_of B 3) 3 3 (Ack [(4, 0)]));      (* A: send epoch 5, call 1 returns *)
+    OpWrite A 9;                                                 (* (5,0) *)
+    OpDeliver B (mkrec (secret_of A 5) 1 0 (App 9)) ].           (* B holds no generation for epoch 5 *)
+
+Theorem shadowed_keyupdate_refuted :
+  exists (c : config) (ops : list op),
+    N.of_nat (c_window c) <= 32767 /\ authentic (init c) ops /\
+    (forall s, c_shadow c s = [] \/ c_shadow c s = [c_base c (other s) + 1]) /\
+    let st := fst (exec (init c) ops) in
+    let evs := snd (exec (init c) ops) in
+    In (EvStart A 1 4) evs /\ In (EvDone A 1) evs /\ ~ In (EvKuIn B 4) evs /\
+    w_epoch (sd st A) = 5 /\ r_epoch (sd st B) = 4 /\
+    In (EvSent A 5 (mkrec (secret_of A 5) 1 0 (App 9))) evs /\ reads_of B evs = [].
+Proof.
+  exists shadow_cfg, shadow_ops. split; [vm_compute; discriminate|].
+  split; [vm_compute; repeat split; tauto|].
+  split; [intros [|]; [now left | now right]|].
+  vm_compute. repeat split; try tauto.
+  intro H. repeat (destruct H as [H | H]; [discriminate H|]). exact H.
 Qed.
